@@ -209,11 +209,11 @@ pub fn free_run(c: &MinCase, dir: &str, perturb: Option<u64>) -> Vec<Value> {
 }
 
 pub fn gen_case(rng: &mut Rng, i: usize, maxrecs: usize) -> MinCase {
-    let m = [1usize, 2, 3, 5, 7, 10, 15, 28][i % 8];
+    let m = if i % 2 == 0 { [1usize, 2, 3, 5, 7, 10, 15, 28][(i / 2) % 8] } else { 1 + rng.below(28) as usize };
     let w = match i % 3 {
         0 => 0,
         1 => m + 1,
-        _ => m + 1 + rng.below(12) as usize,
+        _ => m + 1 + rng.below(if i % 4 == 2 { 12 } else { 45 }) as usize,
     };
     let n = if i % 7 == 6 { rng.below(2) as usize } else { rng.range(1, maxrecs as u64) as usize };
     let recs: Vec<Vec<u8>> = (0..n)
